@@ -79,7 +79,19 @@ func gatedBySendInit(fn *ssa.Function, in ssa.Instruction) bool {
 	// the non-nil edge must not reach in: find the If on (gate != nil)
 	call := gate.(*ssa.Call)
 	okEdge := false
-	for _, r := range *call.Referrers() {
+	// the error of the gate: the call's value, or its last result when the
+	// gate also reports something else (created bool, err error)
+	var errRefs []ssa.Instruction
+	if tup, ok := call.Type().(*types.Tuple); ok {
+		for _, r := range *call.Referrers() {
+			if ex, ok := r.(*ssa.Extract); ok && ex.Index == tup.Len()-1 {
+				errRefs = append(errRefs, *ex.Referrers()...)
+			}
+		}
+	} else {
+		errRefs = *call.Referrers()
+	}
+	for _, r := range errRefs {
 		bo, ok := r.(*ssa.BinOp)
 		if !ok || !(isNilConst(bo.X) || isNilConst(bo.Y)) {
 			continue
@@ -324,7 +336,7 @@ func r05_2(c *RC) {
 	badRet := false
 	for b := range reach {
 		for _, in := range b.Instrs {
-			if r, ok := in.(*ssa.Return); ok && len(r.Results) == 1 && retIsNil(r, 0) {
+			if r, ok := in.(*ssa.Return); ok && len(r.Results) >= 1 && retIsNil(r, len(r.Results)-1) {
 				badRet = true
 				c.Bad("gate:maybeInitSendBlockCipher", r.Pos(), "maybeInitSendBlockCipher can return nil on a server although neither send nor recv is set: the write gate is open for unauthenticated peers")
 			}
